@@ -18,6 +18,9 @@ TLC_SH = os.path.join(VERIF, "bin", "tlc.sh")
 NCPU = os.cpu_count() or 4
 
 
+TIER = ["quick"]      # set by Report(); handed to TLC as VERIF_TIER (Emit!Thorough)
+
+
 class ToolError(Exception):
     pass
 
@@ -181,6 +184,7 @@ def tlc_chunked(prop, run, module, nchunks=None, env=None, heap="3g", timeout=60
         e = dict(os.environ)
         e.update({kk: str(v) for kk, v in (env or {}).items()})
         e.update(VERIF_OUT=os.path.join(d, "%s.%d.ndjson" % (out_name, k)), VERIF_NCHUNKS=str(nchunks), VERIF_CHUNK=str(k))
+        e.setdefault("VERIF_TIER", TIER[0])
         meta = os.path.join(d, "md_%d" % k)
         cmd = ["timeout", str(timeout), TLC_SH, heap, "-workers", "1", "-metadir", meta, "-cleanup",
                "-noGenerateSpecTE", "-nowarning"] + (["-coverage", "1"] if coverage else []) + ["-config", module + ".cfg", module + ".tla"]
@@ -299,6 +303,7 @@ class Report:
     def __init__(self, prop, tier):
         self.prop = prop
         self.tier = tier
+        TIER[0] = tier
         self.t0 = time.time()
         self.violations = []     # (key, replay path)
         self.known_hits = []
@@ -424,7 +429,7 @@ def tlc_single(prop, run, module, cfg=None, env=None, workers=1, heap="4g", time
     """One TLC process exploring a state machine (not chunked).  Lines it emits go to <d>/<out_name>."""
     d = d or workdir(prop, run)
     out_path = os.path.join(d, out_name)
-    e = {"VERIF_OUT": out_path, "VERIF_NCHUNKS": "1", "VERIF_CHUNK": "0"}
+    e = {"VERIF_OUT": out_path, "VERIF_NCHUNKS": "1", "VERIF_CHUNK": "0", "VERIF_TIER": TIER[0]}
     e.update(env or {})
     t0 = time.time()
     rc, out = run_tlc(d, module, cfg=cfg, env=e, workers=workers, heap=heap, timeout=timeout)
